@@ -158,6 +158,8 @@ Step(S, ev) ==
          LET E2 == FnDel(E, W.doomed) IN
          [S |-> put(E2, [W EXCEPT !.doomed = {}]), f |-> cmp(E2, "C15", "maintain")]
     [] ev.op = "AMaintain" -> [S |-> put(E, [W EXCEPT !.stale = <<>>]), f |-> cmp(E, "C15", "allocator maintain")]
+    [] ev.op = "AClone" ->    \* the allocator replaced by a clone of itself: nothing changes, now or later
+         [S |-> S, f |-> cmp(E, "C15", "allocator cloned")]
     [] ev.op = "Unmark" ->    \* the marker component is removed by hand (Storage::remove)
          LET live == ev.h \in DOMAIN E
              had == live /\ E[ev.h][1] # None
